@@ -138,6 +138,11 @@ def observe_query(sc, traced=True):
                 return "nosrc"
     traced = traced and sc.get("traced", True)
     trace = make_trace(log) if traced else None
+    if traced == "log_to":
+        from treepath import log_to
+        sink = []
+        trace = log_to(sink.append)
+        trace.flush = lambda: None
     b.tracer = trace
     api = sc["api"]
     out = []
@@ -248,9 +253,28 @@ def final_doc(sc):
 
 
 @deadline("VERIF_OBS_TIMEOUT", 10, lambda sc, _box=None: [{"r": ["err", ["HarnessTimeout"]], "g": None}])
+class _ODict(dict):
+    """a dict subclass, as json.loads(..., object_pairs_hook=OrderedDict) or a user's own loader produce"""
+    __slots__ = ()
+
+
+class _OList(list):
+    __slots__ = ()
+
+
+def _subclassed(v):
+    if isinstance(v, dict):
+        return _ODict((k, _subclassed(x)) for k, x in v.items())
+    if isinstance(v, list):
+        return _OList(_subclassed(x) for x in v)
+    return v
+
+
 def observe_mutate(sc, _box=None):
     from treepath import set_, set_match, pop, pop_match
     doc = dec(sc["doc"])
+    if len(json.dumps(sc["doc"])) % 7 == 0:
+        doc = _subclassed(doc)       # containers of subclasses of dict / list are JSON containers all the same
     if _box is not None:
         _box["doc"] = doc
     num = Numbering()
